@@ -9,6 +9,7 @@ import (
 	"io"
 	"net"
 	"os"
+	"syscall"
 	"time"
 
 	"github.com/varlink/go/varlink"
@@ -104,6 +105,10 @@ func errClass(err error) string {
 		return "eof"
 	case errors.Is(err, net.ErrClosed):
 		return "closed"
+	case errors.Is(err, syscall.ECONNRESET):
+		return "reset"
+	case errors.Is(err, syscall.EPIPE):
+		return "epipe"
 	}
 	var ne net.Error
 	if errors.As(err, &ne) && ne.Timeout() {
